@@ -40,6 +40,13 @@ func c06(c *Ctx) {
 	// "whatever Diffie-Hellman group the server uses": the specification lets the server pick g from 2, 3, 4, 5, 6, 7.
 	// With the comparisons of server_DH_inner_data.g against constants decided for each of them (everything else left
 	// open), the computation of the key must stay reachable - a check that lists five generators refuses the sixth
+	// the property is stated per connection, a process runs several: nothing the exchange touches is shared between
+	// them (a package-level generator, cache or scratch object is raced by two overlapping exchanges - math/rand.Rand
+	// panics with an index out of range when that happens)
+	r.Rule("R06.Z", "nothing reachable from makeAuthKey writes a package-level variable, its storage, or calls a receiver-changing method on an object a package variable points to (= R07.S filed under C06)", 1)
+	if f := c.fn("R06.Z", load.RootMod, "*MTProto", "makeAuthKey"); f != nil {
+		c.noGlobalWrites("R06.Z", []*ssa.Function{f}, "the key exchange: two connections of one process would share it")
+	}
 	r.Rule("R06.G", "for every generator the specification allows (g = 2..7) the call of MakeGAB in makeAuthKey is reachable when the tests of server_DH_inner_data.g against constants are decided for that value", 6)
 	if f := c.fn("R06.G", load.RootMod, "*MTProto", "makeAuthKey"); f != nil {
 		var target *ssa.BasicBlock
